@@ -70,8 +70,8 @@ int run(const Args& a, Recorder& rec) {
 #ifdef POMEROL_COMPLEX_MATRIX_ELEMENTS
     VC.push_back(cd(0, 1)); VC.push_back(cd(0.5, -0.5));
 #endif
-    std::vector<std::string> shapes = { "S1", "S2", "S3", "S4", "S4r", "S5", "S6", "S7" };
-    if (a.thorough()) { shapes.push_back("S8"); shapes.push_back("S10"); }
+    std::vector<std::string> shapes = { "S1", "S2", "S3", "S4", "S4r", "S5", "S6", "S7", "S10", "S11" };      // S10: three orbitals (loops over orbital pairs beyond the first two)
+    if (a.thorough()) { shapes.push_back("S8"); shapes.push_back("S12"); }
     // ---- (a) every preset overload x every site (pair) x every argument combination ------------------------------
     for (auto& sid : shapes) {
         Shape sh = make_shape(sid);
